@@ -237,6 +237,36 @@ class Body:
                 succ[i] = [t['target']] if t['target'] is not None else []
             else:
                 succ[i] = []
+        # Jump threading for compiler-made boolean temporaries (`matches!`, `&&`, `||`):
+        #   X: ...; L = const k; goto Y        Y: (no statements) switch L -> [..]
+        # The edge X->Y can only continue to Y's target for k; replacing it removes infeasible
+        # paths only, so every must-pass / dominance answer stays sound and becomes exact for
+        # these diamonds.
+        for y, by in enumerate(self.blocks):
+            if by['cleanup'] or by['stmts'] or by['term']['k'] != 'switch':
+                continue
+            d = by['term']['discr']
+            if d['k'] not in ('copy', 'move') or d['place']['p']:
+                continue
+            L = d['place']['l']
+            for x, bx in enumerate(self.blocks):
+                if bx['cleanup'] or bx['term']['k'] != 'goto' or bx['term']['target'] != y:
+                    continue
+                k = None
+                for st in bx['stmts']:
+                    if st['k'] == 'assign' and st['lhs']['l'] == L and not st['lhs']['p']:
+                        rv = st['rv']
+                        if rv['k'] == 'use' and rv['op']['k'] == 'const' and 'val' in rv['op']:
+                            k = rv['op']['val']
+                        else:
+                            k = None
+                if k is None:
+                    continue
+                tgt = by['term']['otherwise']
+                for val, tb in by['term']['targets']:
+                    if val == k:
+                        tgt = tb
+                succ[x] = [tgt]
         pred = [[] for _ in range(self.n)]
         for i, ss in enumerate(succ):
             for s_ in ss:
